@@ -16,7 +16,8 @@ CHECKS = {
             "Exhaustive up to the operator bound: TLC enumerates every tree with <=2 (thorough: <=3) operator/bracket "
             "nodes as states of a derivation machine, proves the printer/parser round-trip theorem on the "
             "specification, and exports four renderings per tree; each is parsed by the real lexer+parser and the "
-            "AST compared structurally with the generating tree.",
+            "AST compared structurally with the generating tree. MC_C05_chain adds left- and right-nested operator runs "
+            "of up to 58 (thorough: 140) operators; Trace_Reduce validates the real parser's reduction order.",
             "Trusted: spec/OData.tla precedence table (transcribed from OData 4.01 5.1.1.14), harness/project.py "
             "AST projection, TLC. Bounded: <=2/3 operators; deeper trees only by simulation."),
     "C13": ("DESIGN.md 6/C13",
@@ -144,8 +145,8 @@ CHECKS = {
             "TLC generates filter pairs differing in one string literal / field spelling (MC_C07); the SQL emitted by the "
             "three dialects for each pair is a trace validated by TLC with the per-code-point SQL lexical automaton "
             "SqlLex (Trace_Sql): non-interference verdict per pair",
-            "Exhaustive over 39 literal positions x 28 adversarial contents + 8 field positions x 11 spellings, x 3 "
-            "dialects x alias on/off (6.9k SQL pairs); SQLite additionally prepares every statement.",
+            "Exhaustive over 51 literal positions x 38 adversarial contents + 8 field positions x 11 spellings, x 3 "
+            "dialects x alias on/off (11k SQL pairs); SQLite additionally prepares every statement.",
             "Trusted: spec/SqlLex.tla as the definition of SQL string-literal and quoted-identifier tokens (standard "
             "SQL quoting: doubled quotes, no backslash escapes)."),
     "C09": ("DESIGN.md 6/C09",
@@ -161,7 +162,7 @@ CHECKS = {
             "TLC generates filter pairs differing only in literal values (MC_C08); the (compiled SQL, parameter list) "
             "pairs obtained from Django and the three SQLAlchemy entry styles are traces validated by TLC with the SQL "
             "lexer automaton (Trace_Params)",
-            "Exhaustive over 35 skeletons x value pairs per literal kind (141 pairs) x 4 backends: identical token "
+            "Exhaustive over 38 skeletons (incl. in-lists of 1000-2100 elements) x value pairs per literal kind x 4 backends: identical token "
             "sequence, no distinctive value in the text, every value in the parameter list.",
             "Trusted: SqlLex.tla; compile(render_postcompile=True) / sql_with_params() as what the driver receives; "
             "value_alts() spellings."),
